@@ -402,6 +402,38 @@ pub fn run(run: &Run) {
             }
         });
         run.add_distinct(total as u64 + counts[0].0 as u64);
+        // the three public routes agree on every string the formatter prints for a value universe:
+        // parse(s), parse_chars(s.chars()), parse_multi([s])[0], parse_multi([s, s])[1]
+        let mut vals: Vec<V> = crate::universe::u_term(&f, Tier::Quick).into_iter().map(V::term).collect();
+        vals.extend(crate::universe::u_sent_cover(&f));
+        if tier == Tier::Thorough {
+            vals.extend(crate::universe::u_sent(&f));
+        }
+        run.count(&format!("route_agreement_values_{}", f.name), vals.len() as u64);
+        run.add_distinct(vals.len() as u64);
+        vals.par_iter().for_each(|v| {
+            let v2 = v.clone();
+            let Ok(s) = quiet_catch(AssertUnwindSafe(move || f.e.format_narsese(&v2.build()))) else { return };
+            run.eval(3);
+            let a = outcome(&ops::parse_enum(&f, &s));
+            let b = quiet_catch(AssertUnwindSafe(|| outcome(&f.e.parse_chars::<Narsese>(s.chars().collect()).map_err(|e| e.to_string()))));
+            let m = quiet_catch(AssertUnwindSafe(|| f.e.parse_multi([s.as_str(), s.as_str()]).into_iter().map(|r| outcome(&r.map_err(|e| e.to_string()))).collect::<Vec<_>>()));
+            let bad = match (&b, &m) {
+                (Ok(b), Ok(m)) => {
+                    if *b != a {
+                        Some(format!("parse_chars gives {} but parse gives {}", show_outcome(b), show_outcome(&a)))
+                    } else if m.len() != 2 || m[0] != a || m[1] != a {
+                        Some(format!("parse_multi([s, s]) gives {:?} but parse gives {}", m.iter().map(show_outcome).collect::<Vec<_>>(), show_outcome(&a)))
+                    } else {
+                        None
+                    }
+                }
+                _ => Some("parse_chars / parse_multi panics".to_string()),
+            };
+            if let Some(msg) = bad {
+                run.violation(&format!("[{}] {s:?}: {msg}", f.name), json!({"op": "parse_sequence", "format": f.name, "inputs": [s, s]}), &[]);
+            }
+        });
         // parse_chars == parse, parse twice
         for (_, s) in &alpha {
             run.eval(2);
